@@ -319,8 +319,8 @@ type storeOpts struct {
 func buildStore(idx int, o storeOpts, pk *keyPicker, ca *caSet, rng *mrand.Rand) (*genSpec, error) {
 	g := &genSpec{Idx: idx, Bad: o.Bad}
 	n := o.NEntries
-	if o.Bad == "duplicate-kid" && n < 2 {
-		n = 2
+	if o.Bad == "duplicate-kid" {
+		n = 3 // at least two entries besides a possible stable-kid entry
 	}
 	stablePos := -1
 	if o.StableKid != "" && o.Bad != "key-id-missing" {
